@@ -22,7 +22,7 @@ func init() {
 			{ID: "C16.R2", Text: "lag = hi>lo ? hi−lo : 0 with the subtraction dominated by the comparison on the same operands; totalLag accumulates every lag and is emitted after the loop", Run: c16r2},
 			{ID: "C16.R3", Text: "counters by kind: handler→its own Add* exactly once per accepted event; Add* increments its own field by 1", Run: c16r3},
 			{ID: "C16.R4", Text: "closed-stream scrape: sends and observers uses in Collect are dominated by GetObservers()≠nil; /states/offset tests IsOpen first", Run: c16r4},
-			{ID: "C16.R5", Text: "active-stream count: set at open, decremented once per final end only (same rules as C12.R1, C12.R2)", Run: func(c *Ctx, id string) { c12r1(c, id); c12r2(c, id) }},
+			{ID: "C16.R5", Text: "active-stream count: set at open, decremented once per final end only (same rules as C12.R1, C12.R2)", Run: func(c *Ctx, id string) { c12r1(c, id); c12r2counter(c, id) }},
 		},
 	})
 }
@@ -108,6 +108,24 @@ func c16r1(c *Ctx, id string) {
 		c.see(get)
 		info := "call(recv.membership.GetInfo)()"
 		n := 0
+		// the slice Get returns (whatever computes it: that is C09's business)
+		var ret ssa.Value
+		allInstrs(get, func(in ssa.Instruction) {
+			if r, ok := in.(*ssa.Return); ok && len(r.Results) == 1 {
+				ret = r.Results[0]
+			}
+		})
+		elemOf := func(v ssa.Value) (idx ssa.Value, ok bool) { // v = ret[idx]
+			ld, isLd := unwrap(v).(*ssa.UnOp)
+			if !isLd {
+				return nil, false
+			}
+			ia, isIA := ld.X.(*ssa.IndexAddr)
+			if !isIA || ia.X != ret {
+				return nil, false
+			}
+			return ia.Index, true
+		}
 		allInstrs(get, func(in ssa.Instruction) {
 			st, ok := in.(*ssa.Store)
 			if !ok || !strings.HasPrefix(w.Origin(st.Addr), "&recv.vBucketDiscoveryMetric.") {
@@ -121,9 +139,19 @@ func c16r1(c *Ctx, id string) {
 			case "TotalMembers", "MemberNumber":
 				okv = got == info+"."+field
 			case "VBucketRangeStart":
-				okv = strings.HasPrefix(got, "call(helpers.ChunkSlice)(") && strings.HasSuffix(got, "[("+info+".MemberNumber - const(1))][const(0)]")
+				if idx, ok := elemOf(st.Val); ok {
+					okv = w.Origin(idx) == "const(0)"
+				}
 			case "VBucketRangeEnd":
-				okv = strings.HasPrefix(got, "call(helpers.ChunkSlice)(") && strings.Contains(got, "[("+info+".MemberNumber - const(1))][(len(") && strings.HasSuffix(got, ") - const(1))]")
+				if idx, ok := elemOf(st.Val); ok {
+					if b, isB := idx.(*ssa.BinOp); isB && b.Op == token.SUB && w.Origin(b.Y) == "const(1)" {
+						if call, isC := b.X.(*ssa.Call); isC {
+							if bi, isBi := call.Common().Value.(*ssa.Builtin); isBi && bi.Name() == "len" && call.Common().Args[0] == ret {
+								okv = true
+							}
+						}
+					}
+				}
 			}
 			c.Check(okv, id, "discovery:"+field, in.Pos(), field+" ← value in effect", "discovery metric "+field+" ← "+got)
 		})
@@ -131,7 +159,7 @@ func c16r1(c *Ctx, id string) {
 			c.Undecided(id, "discovery", get.Pos(), "%d discovery metric fields written in Get (expected 4)", n)
 		}
 	}
-	c.Floor(id, 30)
+	c.Floor(id, 20)
 }
 
 func c16r2(c *Ctx, id string) {
